@@ -21,7 +21,7 @@ META = {
     'property_id': 'C15',
     'technique': 'Lean 4 theorems over all 64-bit from/to about emitters regenerated from the Go source (translator) + differential run against the real emitters and the real call sites',
     'level': 'proof',
-    'level_text': 'Proof, with one clause partial (known finding F5). For every 64-bit from/to and every machine state the byte sequences produced by the (regenerated) emitters execute under the mini ISA specification to exactly the intended RIP/RDX (PC/X26/X10|X27) when diverting a function and when entering an interface stub; the relative form of the jump back is chosen iff some rel32 reaches the destination and then lands exactly on it with no register changed, also when composed with the placement used at the call site (from = trampoline + length of the relocated head); every stub fits the interfaceJumpDataLen slot. The full clause "return from a trampoline lands exactly on the destination" (C15.ReturnExact) is FALSE for the absolute form (MOV RDX,to; JMP [RDX] lands on [to] and clobbers RDX): proved as return_exact_partial + Findings/C15F5.not_returnExact and reported as KNOWN-FINDING F5. The emitters are re-translated from the Go source on every run, so an edit to them is re-proved or breaks the proof.',
+    'level_text': 'Full proof (F5 repaired by F27-c15). For every 64-bit from/to and every machine state the byte sequences produced by the (regenerated) emitters execute under the mini ISA specification to exactly the intended RIP/RDX (PC/X26/X10|X27) when diverting a function and when entering an interface stub; the jump back from a trampoline lands exactly on its destination with no register changed in both forms (C15.return_exact), also when composed with the placement used at the call site (from = trampoline + length of the relocated head); the relative form is chosen iff some rel32 reaches the destination; every stub fits the interfaceJumpDataLen slot. The emitters are re-translated from the Go source on every run, so an edit to them is re-proved or breaks the proof.',
     'level_note': 'Trusted: Lean kernel (axioms propext, Classical.choice, Quot.sound only), tools/gen translator and the hand-written mini ISA (both cross-checked on every run against the real Go emitters and the toolchain reference decoders on ~45k pairs incl. the +-2GiB boundary), totalised slice indexing in generated code (bounds behaviour of checkAlreadyPatch compared by the c15.cap lane). Call sites (argument wiring of jumpdata.go:53, make_method.go:23/40, fix_origin_amd64.go:58) are tied by observation only: the site lane reads back what real patches leave in memory in this binary; jump_back_site states the placement obligation. arm64: jmpToOriginFunctionValue is panic("not support yet") — guarded by arm64_origin_unimplemented, no landing claim; jmpWithRdxAndCtx has no caller (theorem kept). Not modelled: instruction fetch of freshly written code (arm64 i-cache), that X10 is an ABIInternal argument register on arm64.',
 }
 
